@@ -261,4 +261,21 @@ CLAIMED = {
          "census), the Go runtime opening no descriptors of its own mid-case. Not covered: descriptor-table exhaustion "
          "(RLIMIT_NOFILE) as a failure point, the garbage collector itself, TLS dialling."),
    technique="Coq proof (registry invariant by induction over the loop model; guard invariant over descriptor-table histories; finite sweep of constructor paths) + /proc/self/fd census correspondence + GC probes"),
+ "C17": dict(
+   text=("PARTIAL proof + full correspondence. Coq theorems (3, closed) about a focused model of the AsyncAdapter's single write "
+         "reactor, CodecConn/ByteBuffer asynchronous write, the Stream's flush chain with waiting callers, AsyncWrite and the "
+         "read path with automatic Pongs, for every history of application calls, peer events and polls with any number of "
+         "bytes accepted per write call: the wire is a prefix of the frames in queue order (never interleaved or repeated); "
+         "every completion registered with a flush (read continuation, or the callback of AsyncWrite/AsyncWriteFrame/"
+         "AsyncFlush/AsyncClose) has run exactly once or is still held by the flush in flight (none dropped, none twice); "
+         "the pre-repair structure is REFUTED (an application write replaces the Pong flush in the adapter and the read's "
+         "continuation is lost). The implementation is a real client stream after a real handshake over the real adapter on "
+         "a loopback socket: every ordering of {ping, write, poll, message} sequences up to length 5 after a read, random "
+         "longer scripts with frames up to 60000 bytes; callbacks after every call and the frames the peer received are "
+         "compared with the model and judged by an independent oracle (exactly-once, nothing dropped once settled, whole "
+         "frames in order)."),
+   note=("Trusted: Coq kernel, extraction, harness. Frames are opaque in this model (format: C16); message reassembly and the "
+         "closing handshake are C06/C08; 'a read in flight is always armed or waiting for a flush' is not stated as an "
+         "invariant; real partial writes occur only for large frames (kernel-chosen), where only final outcomes are compared."),
+   technique="Coq proof (invariant by mutual induction over the flush/continuation functions and over histories; refutation of the pre-repair structure) + correspondence on a real socket + independent oracle"),
 }
